@@ -561,8 +561,32 @@ func (self *Analyzer) TypeCheck(got ast.Type, expected ast.Type, options TypeChe
 				}
 			}
 		case ast.VarArgsFunctionTypeParamKindIdentifierKind:
-			// TODO: ...
-			panic("TODO: implement or remove this")
+			// two functions which take any number of arguments: the fixed leading parameters and the type of the rest
+			// must agree
+			expectedFnParams := expectedFn.Params.(ast.VarArgsFunctionTypeParamKindIdentifier)
+			gotFnParams := gotFn.Params.(ast.VarArgsFunctionTypeParamKindIdentifier)
+
+			if len(expectedFnParams.ParamTypes) != len(gotFnParams.ParamTypes) {
+				return newCompatibilityErr(
+					diagnostic.Diagnostic{
+						Level:   diagnostic.DiagnosticLevelError,
+						Message: fmt.Sprintf("Expected %d leading parameters, got %d", len(expectedFnParams.ParamTypes), len(gotFnParams.ParamTypes)),
+						Notes:   []string{},
+						Span:    gotFn.ParamsSpan,
+					},
+					nil,
+				)
+			}
+
+			for idx, expectedParam := range expectedFnParams.ParamTypes {
+				if err := self.TypeCheck(gotFnParams.ParamTypes[idx], expectedParam, options); err != nil {
+					return err
+				}
+			}
+
+			if err := self.TypeCheck(gotFnParams.RemainingType, expectedFnParams.RemainingType, options); err != nil {
+				return err
+			}
 		default:
 			panic("A new function parameter type kind was introduced without updating this code")
 		}
